@@ -411,6 +411,198 @@ static rc::Gen<Case> gen_c05(int inst) {
   });
 }
 
+// ================================================================================================ C10 / C11 at quantity level
+// squared length must neither overflow nor underflow: ||v||^2 >= min_normal * 2^(p+2)  (DESIGN 5 C10)
+static int len_lo(int nt) { return (ntinfo(nt).emin + ntinfo(nt).mant + 2) / 2 + 1; }
+static int len_hi(int nt) { return (ntinfo(nt).emax - 3) / 2; }
+static Q qnorm(const LD* v, int n) {  // scaled by an exact power of two so that the reference itself neither overflows nor underflows
+  LD m = 0; for (int i = 0; i < n; i++) m = std::max(m, std::fabs(v[i])); if (m == 0) return 0; int e; std::frexp(m, &e);
+  Q s = 0; for (int i = 0; i < n; i++) { const Q x = ldexpq((Q)v[i], -e); s += x * x; } return ldexpq(sqrtq(s), e);
+}
+// a vector of n components: random orientation x length 2^k, with axis-aligned / two-axis / near-degenerate variants
+static rc::Gen<std::vector<LD>> gen_vector(int nt, int n, bool allow_zero, int margin = 2) {
+  return rc::gen::map(rc::gen::tuple(gen_reals(n, nt, -1, 1, kNeg), irange(len_lo(nt) + margin, len_hi(nt) - margin), irange(0, 9), irange(0, n - 1), irange(1, 40)),
+                      [=](const std::tuple<std::vector<LD>, int, int, int, int>& t) {
+                        std::vector<LD> v = std::get<0>(t); const int k = std::get<1>(t), mode = std::get<2>(t), ax = std::get<3>(t), deg = std::get<4>(t);
+                        if (mode == 0) { for (int i = 0; i < n; i++) if (i != ax) v[(size_t)i] = 0; }                    // axis-aligned
+                        else if (mode == 1 && n == 3) v[(size_t)ax] = 0;                                                   // two-axis
+                        else if (mode == 2) v[(size_t)ax] = std::ldexp(v[(size_t)ax], -deg);                               // near-degenerate
+                        else if (mode == 3 && allow_zero) { for (auto& x : v) x = 0; }                                     // zero vector
+                        else if (mode == 4) v[(size_t)ax] = std::signbit(v[(size_t)ax]) ? -(LD)0 : (LD)0;                  // a signed-zero component
+                        for (auto& x : v) x = std::ldexp(x, k);
+                        return v;
+                      });
+}
+static std::vector<Ref> g_mag, g_comp, g_dirrel, g_angle;
+struct Rebuild { int nt; int mag, dir, build; bool dir_first; };
+static std::vector<Rebuild> g_rebuild;
+static int comp_index(const char* m, int n) {
+  static const char* c2[] = {"x", "y"}; static const char* c3[] = {"x", "y", "z"}; static const char* c6[] = {"xx", "xy", "xz", "yy", "yz", "zz"}; static const char* c9[] = {"xx", "xy", "xz", "yx", "yy", "yz", "zx", "zy", "zz"};
+  const char* const* names = n == 2 ? c2 : n == 3 ? c3 : n == 6 ? c6 : c9;
+  if (n != 2 && n != 3 && n != 6 && n != 9) return -1;
+  for (int i = 0; i < n; i++) if (!std::strcmp(names[i], m)) return i;
+  if (n == 6) { if (!std::strcmp(m, "yx")) return 1; if (!std::strcmp(m, "zx")) return 2; if (!std::strcmp(m, "zy")) return 4; }
+  return -1;
+}
+static void find_c10() {
+  for (int nt = 0; nt < 3; nt++) for (size_t i = 0; i < g_rel[nt].size(); i++) {
+    const VfRelation* r = g_rel[nt][i];
+    if (r->kind == 5 && !std::strcmp(r->member, "Magnitude") && (r->args[0].ncomp == 2 || r->args[0].ncomp == 3)) g_mag.push_back({nt, (int)i});
+    if (r->kind == 5 && comp_index(r->member, r->args[0].ncomp) >= 0 && r->res.ncomp == 1) g_comp.push_back({nt, (int)i});
+    const bool dirres = r->res.kind == 2 && r->nargs == 1 && r->args[0].ncomp == r->res.ncomp && r->args[0].kind != 2;
+    if (dirres && (r->kind == 4 || r->kind == 5)) g_dirrel.push_back({nt, (int)i});
+    if (!std::strcmp(r->res.name, "Angle") && r->nargs == 2 && (r->kind == 4 || r->kind == 6) && r->args[0].ncomp >= 2 && r->args[0].ncomp <= 3 && r->args[1].ncomp == r->args[0].ncomp) g_angle.push_back({nt, (int)i});
+  }
+  // magnitude x direction rebuilds the quantity: Q(scalar, direction), scalar * direction, direction * scalar
+  for (int nt = 0; nt < 3; nt++) for (size_t i = 0; i < g_rel[nt].size(); i++) {
+    const VfRelation* b = g_rel[nt][i];
+    if (b->nargs != 2 || !(b->kind == 4 || b->kind == 2)) continue;
+    int di = b->args[0].kind == 2 ? 0 : b->args[1].kind == 2 ? 1 : -1; if (di < 0) continue;
+    const VfArg& sc = b->args[1 - di]; if (sc.ncomp != 1 || b->res.ncomp != b->args[di].ncomp || b->res.kind != 0) continue;
+    int mag = -1, dir = -1;
+    for (size_t j = 0; j < g_rel[nt].size(); j++) {
+      const VfRelation* m = g_rel[nt][j];
+      if (m->kind != 5 || std::strcmp(m->args[0].name, b->res.name)) continue;
+      if (!std::strcmp(m->member, "Magnitude") && !std::strcmp(m->res.name, sc.name)) mag = (int)j;
+      if (m->res.kind == 2 && !std::strcmp(m->res.name, b->args[di].name)) dir = (int)j;
+    }
+    if (mag >= 0 && dir >= 0) g_rebuild.push_back({nt, mag, dir, (int)i, di == 0});
+  }
+}
+static bool distinct_all_impl(const LD* v, int n);
+static Verdict c10_magnitude(const Case& c) {
+  const int nt = (int)c.i[0]; const VfRelation* R = g_rel[nt][(size_t)c.i[1]]; const int n = R->args[0].ncomp;
+  Eval E; load_operands(R, c, E); E.run(R);
+  for (int q = 0; q < 7; q++) if (R->res.dims[q] != R->args[0].dims[q]) return Verdict::fail(fmt("%s returns %s, whose declared dimension set differs from that of %s", R->name, R->res.name, R->args[0].name));
+  if (R->res.ncomp != 1 || R->res.kind != R->args[0].kind) return Verdict::fail(fmt("%s does not return a scalar quantity", R->name));
+  const Q ref = qnorm(E.st[0], n);
+  bool zero = true; for (int i = 0; i < n; i++) if (E.st[0][i] != 0) zero = false;
+  if (zero) { if (E.out[0] != 0) return Verdict::fail(fmt("%s of the zero vector is %s", R->name, hexld(E.out[0]).c_str())); Verdict V; V.cls = "zero"; return V; }
+  const double e = err_ulps(nt, E.out[0], ref, ref);
+  if (!(e <= 3.0)) return Verdict::fail(fmt("%s [%s] of %s is %s, the Euclidean norm is %s (%.3g ulp, allowed 3)", R->name, ntinfo(nt).name, comps_dec(E.st[0], n).c_str(), decld(E.out[0]).c_str(), qstr(ref).c_str(), e));
+  Verdict V; V.cls = std::string(ntinfo(nt).name) + ";" + real_class((LD)ref); V.nontrivial = true; int nz = 0; for (int i = 0; i < n; i++) if (E.st[0][i] != 0) nz++; if (nz < 2) { V.nontrivial = false; V.cls += ";axis-aligned"; }
+  return V;
+}
+static Verdict c10_component(const Case& c) {
+  const int nt = (int)c.i[0]; const VfRelation* R = g_rel[nt][(size_t)c.i[1]]; const int n = R->args[0].ncomp;
+  Eval E; load_operands(R, c, E); E.run(R);
+  const int k = comp_index(R->member, n);
+  if (!same_bits(nt, E.out[0], E.st[0][k])) return Verdict::fail(fmt("%s [%s] of %s returns %s, the stored component is %s", R->name, ntinfo(nt).name, comps(E.st[0], n).c_str(), hexld(E.out[0]).c_str(), hexld(E.st[0][k]).c_str()));
+  if (R->args[0].kind == 0) for (int q = 0; q < 7; q++) if (R->res.dims[q] != R->args[0].dims[q]) return Verdict::fail(fmt("%s returns %s, whose declared dimension set differs from that of %s", R->name, R->res.name, R->args[0].name));
+  Verdict V; V.cls = ntinfo(nt).name; V.nontrivial = distinct_all_impl(E.st[0], n); return V;
+}
+static Verdict c10_direction(const Case& c) {
+  const int nt = (int)c.i[0]; const VfRelation* R = g_rel[nt][(size_t)c.i[1]]; const int n = R->args[0].ncomp;
+  Eval E; load_operands(R, c, E); E.run(R);
+  bool zero = true; for (int i = 0; i < n; i++) if (E.st[0][i] != 0) zero = false;
+  if (zero) { for (int i = 0; i < n; i++) if (E.out[i] != 0 || std::signbit(E.out[i])) return Verdict::fail(fmt("%s of the zero vector has component %d = %s, expected exactly +0", R->name, i, hexld(E.out[i]).c_str())); Verdict V; V.cls = "zero-vector"; V.nontrivial = true; return V; }
+  const Q len = qnorm(E.st[0], n);
+  const Q dl = qnorm(E.out, n);
+  const double el = (double)(fabsq(dl - 1) / (Q)eps_of(nt));
+  if (!(el <= 4.0)) return Verdict::fail(fmt("%s [%s] of %s has length 1 %+.3g ulp (allowed 4): %s", R->name, ntinfo(nt).name, comps_dec(E.st[0], n).c_str(), (double)((dl - 1) / (Q)eps_of(nt)), comps_dec(E.out, n).c_str()));
+  for (int i = 0; i < n; i++) {
+    const Q want = (Q)E.st[0][i] / len;
+    if (want == 0) { if (E.out[i] != 0) return Verdict::fail(fmt("%s: component %d should vanish", R->name, i)); continue; }
+    if (fabsq(want) < ldexpq(1, ntinfo(nt).emin + 2)) continue;   // a component this far below the others underflows legitimately
+    const double e = err_ulps(nt, E.out[i], want, want);
+    if (!(e <= 4.0)) return Verdict::fail(fmt("%s [%s] of %s: component %d is %s, v_i/|v| = %s (%.3g ulp, allowed 4): not parallel to the input", R->name, ntinfo(nt).name, comps_dec(E.st[0], n).c_str(), i, decld(E.out[i]).c_str(), qstr(want).c_str(), e));
+  }
+  // positive rescaling: exactly unchanged for powers of two, to rounding otherwise
+  const int k = (int)c.i[2]; const LD s = c.r[(size_t)n];
+  int e0; std::frexp((LD)len, &e0);
+  if (e0 + k > len_lo(nt) + 1 && e0 + k < len_hi(nt) - 1) {
+    Eval F; for (int i = 0; i < n; i++) F.in[0][i] = std::ldexp(E.st[0][i], k); F.run(R);
+    for (int i = 0; i < n; i++) if (!same_bits(nt, F.out[i], E.out[i]) && !(F.out[i] == 0 && E.out[i] == 0)) return Verdict::fail(fmt("%s [%s]: scaling the input %s by 2^%d changes component %d of the direction from %s to %s", R->name, ntinfo(nt).name, comps(E.st[0], n).c_str(), k, i, hexld(E.out[i]).c_str(), hexld(F.out[i]).c_str()));
+  }
+  {
+    Eval F; bool okr = true; for (int i = 0; i < n; i++) { F.in[0][i] = round_to(nt, E.st[0][i] * s); if (E.st[0][i] != 0 && (!std::isfinite(F.in[0][i]) || std::fabs(F.in[0][i]) < std::ldexp((LD)1, len_lo(nt)) || std::fabs(F.in[0][i]) > std::ldexp((LD)1, len_hi(nt)))) okr = false; }
+    if (okr) { F.run(R); for (int i = 0; i < n; i++) { const Q want = (Q)E.st[0][i] / len; if (fabsq(want) < ldexpq(1, -20)) continue; const double e = err_ulps(nt, F.out[i], want, want); if (!(e <= 6.0)) return Verdict::fail(fmt("%s [%s]: scaling the input by %s moves component %d to %s (%.3g ulp from v_i/|v|, allowed 6)", R->name, ntinfo(nt).name, decld(s).c_str(), i, decld(F.out[i]).c_str(), e)); } }
+  }
+  Verdict V; V.cls = std::string(ntinfo(nt).name) + ";" + real_class((LD)len); int nz = 0; for (int i = 0; i < n; i++) if (E.st[0][i] != 0) nz++; V.nontrivial = nz >= 2; if (nz < 2) V.cls += ";axis-aligned";
+  V.show = fmt("%s [%s] %s -> %s", R->name, ntinfo(nt).name, comps_dec(E.st[0], n).c_str(), comps_dec(E.out, n).c_str());
+  return V;
+}
+static Verdict c10_rebuild(const Case& c) {
+  const Rebuild& P = g_rebuild[(size_t)c.i[0]]; const int nt = P.nt;
+  const VfRelation* M = g_rel[nt][(size_t)P.mag]; const VfRelation* Dr = g_rel[nt][(size_t)P.dir]; const VfRelation* B = g_rel[nt][(size_t)P.build];
+  const int n = M->args[0].ncomp;
+  Eval Em, Ed, Eb;
+  for (int i = 0; i < n; i++) Em.in[0][i] = Ed.in[0][i] = c.r[(size_t)i];
+  Em.run(M); Ed.run(Dr);
+  const int di = P.dir_first ? 0 : 1;
+  for (int i = 0; i < n; i++) Eb.in[di][i] = Ed.out[i];
+  Eb.in[1 - di][0] = Em.out[0];
+  Eb.run(B);
+  const Q len = qnorm(Em.st[0], n);
+  if (len == 0) { for (int i = 0; i < n; i++) if (Eb.out[i] != 0) return Verdict::fail(fmt("%s of the zero vector is not zero", B->name)); Verdict V; V.cls = "zero"; return V; }
+  for (int i = 0; i < n; i++) {
+    const double e = err_ulps(nt, Eb.out[i], (Q)Em.st[0][i], len);
+    if (!(e <= 4.0)) return Verdict::fail(fmt("%s [%s]: magnitude x direction of %s gives component %d = %s (%.3g ulp of the length, allowed 4)", B->name, ntinfo(nt).name, comps_dec(Em.st[0], n).c_str(), i, decld(Eb.out[i]).c_str(), e));
+  }
+  Verdict V; V.cls = std::string(ntinfo(nt).name) + (B->kind == 4 ? ";constructor" : P.dir_first ? ";direction*scalar" : ";scalar*direction"); int nz = 0; for (int i = 0; i < n; i++) if (Em.st[0][i] != 0) nz++; V.nontrivial = nz >= 2;
+  return V;
+}
+static bool distinct_all_impl(const LD* v, int n) { for (int i = 0; i < n; i++) for (int j = i + 1; j < n; j++) if (v[i] == v[j]) return false; return true; }
+
+// ---- C11 ----------------------------------------------------------------------------------------------------
+static Q angle_ref(const LD* a, const LD* b, int n) {
+  Q x[3] = {0, 0, 0}, y[3] = {0, 0, 0}; for (int i = 0; i < n; i++) { x[i] = a[i]; y[i] = b[i]; }
+  // bring both to unit scale by an exact power of two first: binary128 has the exponent range of long double, so products of
+  // long double components would overflow / underflow in the reference itself
+  auto unit = [](Q* v) { Q m = 0; for (int i = 0; i < 3; i++) if (fabsq(v[i]) > m) m = fabsq(v[i]); if (m == 0) return; int e; frexpq(m, &e); for (int i = 0; i < 3; i++) v[i] = ldexpq(v[i], -e); };
+  unit(x); unit(y);
+  const Q cx = x[1] * y[2] - x[2] * y[1], cy = x[2] * y[0] - x[0] * y[2], cz = x[0] * y[1] - x[1] * y[0];
+  return atan2q(sqrtq(cx * cx + cy * cy + cz * cz), x[0] * y[0] + x[1] * y[1] + x[2] * y[2]);
+}
+static Verdict c11_angle(const Case& c) {
+  const int nt = (int)c.i[0]; const VfRelation* R = g_rel[nt][(size_t)c.i[1]]; const int n = R->args[0].ncomp;
+  Eval E; load_operands(R, c, E); E.run(R);
+  for (int k = 0; k < 2; k++) { bool z = true; for (int i = 0; i < n; i++) if (E.st[k][i] != 0) z = false; if (z) return Verdict::skip("zero-vector"); }
+  const LD th = E.out[0];
+  const Q pi = strtoflt128("3.14159265358979323846264338327950288", nullptr);
+  auto args = [&]() { return show_args(R, E); };
+  if (std::isnan(th)) return Verdict::fail(fmt("%s [%s] is NaN for %s", R->name, ntinfo(nt).name, args().c_str()));
+  if (th < 0 || (Q)th > pi + (Q)ulp_at(nt, 3)) return Verdict::fail(fmt("%s [%s] = %s is outside [0, pi] for %s", R->name, ntinfo(nt).name, decld(th).c_str(), args().c_str()));
+  const Q ref = angle_ref(E.st[0], E.st[1], n);
+  const Q tol = 6 * sqrtq((Q)eps_of(nt));
+  if (fabsq((Q)th - ref) > tol) return Verdict::fail(fmt("%s [%s] = %s but atan2(|a x b|, a.b) = %s (difference %s, allowed 6 sqrt(eps) = %s) for %s", R->name, ntinfo(nt).name, decld(th).c_str(), qstr(ref).c_str(), qstr((Q)th - ref).c_str(), qstr(tol).c_str(), args().c_str()));
+  // symmetric in its arguments (same-kind arguments: bit for bit)
+  if (!std::strcmp(R->args[0].name, R->args[1].name)) {
+    Eval F; for (int i = 0; i < n; i++) { F.in[0][i] = E.in[1][i]; F.in[1][i] = E.in[0][i]; } F.run(R);
+    if (!same_bits(nt, F.out[0], th)) return Verdict::fail(fmt("%s [%s] is not symmetric: %s vs %s for %s", R->name, ntinfo(nt).name, hexld(th).c_str(), hexld(F.out[0]).c_str(), args().c_str()));
+  }
+  // independent of the lengths: exactly for power-of-two factors
+  if (R->args[0].kind != 2) {
+    const int k1 = (int)c.i[2], k2 = (int)c.i[3];
+    Eval F; bool ok = true;
+    for (int i = 0; i < n; i++) { F.in[0][i] = std::ldexp(E.st[0][i], k1); F.in[1][i] = std::ldexp(E.st[1][i], k2); }
+    for (int k = 0; k < 2; k++) { int e0; std::frexp((LD)qnorm(F.in[k], n), &e0); if (e0 < len_lo(nt) + 2 || e0 > len_hi(nt) - 2) ok = false; for (int i = 0; i < n; i++) if (F.in[k][i] != 0 && std::fabs(F.in[k][i]) < std::ldexp((LD)1, len_lo(nt))) ok = false; }
+    for (int k = 0; k < 2; k++) for (int i = 0; i < n; i++) if (E.st[k][i] != 0 && std::fabs(E.st[k][i]) < std::ldexp((LD)1, len_lo(nt))) ok = false;
+    if (ok) { F.run(R); if (!same_bits(nt, F.out[0], th)) return Verdict::fail(fmt("%s [%s] depends on the lengths: %s, but %s after scaling the arguments by 2^%d and 2^%d (%s)", R->name, ntinfo(nt).name, hexld(th).c_str(), hexld(F.out[0]).c_str(), k1, k2, args().c_str())); }
+  }
+  Verdict V; const Q cosv = cosq(ref);
+  const bool near = fabsq(cosv) > 1 - ldexpq(1, 10) * (Q)eps_of(nt);
+  V.cls = std::string(ntinfo(nt).name) + (near ? (cosv > 0 ? ";nearly-parallel" : ";nearly-antiparallel") : ";generic"); V.nontrivial = near;
+  V.show = fmt("%s [%s] %s -> %s", R->name, ntinfo(nt).name, args().c_str(), decld(th).c_str());
+  return V;
+}
+// pairs with emphasis on parallel / antiparallel / nearly so
+static rc::Gen<std::vector<LD>> gen_angle_pair(int nt, int n, bool directions) {
+  return rc::gen::map(rc::gen::tuple(gen_vector(nt, n, false, 12), gen_vector(nt, n, false, 12), irange(0, 9), gen_real(nt, -6, 6, 0), irange(1, 60), irange(-20, 20)),
+                      [=](const std::tuple<std::vector<LD>, std::vector<LD>, int, LD, int, int>& t) {
+                        std::vector<LD> a = std::get<0>(t), b = std::get<1>(t); const int mode = std::get<2>(t); const LD kf = std::get<3>(t); const int eps = std::get<4>(t), kp = std::get<5>(t);
+                        if (directions) { LD sa = 0; for (LD x : a) sa = std::max(sa, std::fabs(x)); if (sa > 0) for (auto& x : a) x /= sa; LD sb = 0; for (LD x : b) sb = std::max(sb, std::fabs(x)); if (sb > 0) for (auto& x : b) x /= sb; }
+                        LD amax = 0; for (LD x : a) amax = std::max(amax, std::fabs(x));
+                        auto perp = [&]() { std::vector<LD> p((size_t)n, 0); if (n == 2) { p[0] = -a[1]; p[1] = a[0]; } else { int m = 0; for (int i = 1; i < 3; i++) if (std::fabs(a[(size_t)i]) < std::fabs(a[(size_t)m])) m = i; const int i1 = (m + 1) % 3, i2 = (m + 2) % 3; p[(size_t)i1] = -a[(size_t)i2]; p[(size_t)i2] = a[(size_t)i1]; } return p; };
+                        if (mode <= 1) { for (int i = 0; i < n; i++) b[(size_t)i] = round_to(nt, a[(size_t)i] * (mode == 0 ? kf : -kf)); }                            // b = +-k a, arbitrary k
+                        else if (mode <= 3) { for (int i = 0; i < n; i++) b[(size_t)i] = std::ldexp(mode == 2 ? a[(size_t)i] : -a[(size_t)i], directions ? 0 : std::max(-8, std::min(8, kp))); }   // b = +-2^k a
+                        else if (mode <= 6) { auto p = perp(); for (int i = 0; i < n; i++) b[(size_t)i] = round_to(nt, (mode == 6 ? -1 : 1) * a[(size_t)i] * kf + std::ldexp(p[(size_t)i], -eps)); }    // nearly (anti)parallel
+                        else if (mode == 7) { auto p = perp(); b = p; }                                                                                                  // perpendicular
+                        (void)amax;
+                        std::vector<LD> v = a; v.insert(v.end(), b.begin(), b.end()); return v;
+                      });
+}
+
 // ================================================================================================
 int main(int argc, char** argv) {
   load();
@@ -421,7 +613,7 @@ int main(int argc, char** argv) {
   }
   for (int nt = 0; nt < 3; nt++) for (size_t i = 0; i < g_cmp[nt].size(); i++) g_cmpall.push_back({nt, (int)i});
   for (int nt = 0; nt < 3; nt++) for (size_t i = 0; i < g_std[nt].size(); i++) g_stdall.push_back({nt, (int)i});
-  find_twins(); find_pairs();
+  find_twins(); find_pairs(); find_c10();
   if (argc > 1 && std::string(argv[1]) == "inventory") {
     std::map<int, int> kinds; for (auto* r : g_rel[1]) kinds[r->kind]++;
     for (auto& kv : kinds) std::printf("kind %d: %d\n", kv.first, kv.second);
@@ -482,6 +674,43 @@ int main(int argc, char** argv) {
     s.rule = "pairs derived from the declared signatures: constructor/member C(..A..) with A(..C..) over the same remaining arguments (1 to 4 arguments), operator pairs by algebra (a+b<->c-b, a*b<->c/b, a/b<->c*b, and the forms solving "
              "for b), one-argument pairs of equal shape and the planar embedding 2-D -> 3-D -> 2-D (bit-exact); positive finite scalar operands over many binades; oracle: A(C(a,b..),b..) = a within 4(1+kappa) ulp with kappa = k2 + kc(1+k1) the measured "
              "amplification of one-ulp perturbations (kc: of the intermediate, k2: of the other arguments of the inverse, k1: of the operands of the forward relation); non-trivial: kappa <= 16";
+    subs.push_back(s);
+  }
+  auto vgen = [](const std::vector<Ref>& L, bool zero_ok, int extra_i, bool with_scale) {
+    return [&L, zero_ok, extra_i, with_scale](int inst) { const Ref rf = L[(size_t)inst]; const VfRelation* R = g_rel[rf.nt][(size_t)rf.idx]; const int n = R->args[0].ncomp, nt = rf.nt;
+      return rc::gen::map(rc::gen::tuple(gen_vector(nt, n, zero_ok), irange(-30, 30), gen_real(nt, -3, 3, 0)), [=](const std::tuple<std::vector<LD>, int, LD>& t) { Case c; c.i = {nt, rf.idx}; if (extra_i) c.i.push_back(std::get<1>(t)); c.r = std::get<0>(t); if (with_scale) c.r.push_back(std::get<2>(t)); return c; }); }; };
+  {
+    Sub s; s.name = "c10.magnitude"; s.property = "C10"; s.instances = (int)g_mag.size(); s.n_quick = 300; s.n_thorough = 20000; s.gen = vgen(g_mag, true, 0, false); s.run = c10_magnitude; s.instance_name = rname(g_mag);
+    s.rule = "Magnitude() of every vector quantity type (2-D and 3-D) x 3 numeric types: result type is the scalar quantity with the same declared dimensions, value within 3 ulp of the Euclidean norm in __float128; vectors = random "
+             "orientation x length over the whole range in which the squared length neither overflows nor underflows (guard band min_normal 2^(p+2)), axis-aligned, two-axis, near-degenerate, zero; non-trivial: >= 2 non-zero components";
+    subs.push_back(s);
+  }
+  {
+    Sub s; s.name = "c10.components"; s.property = "C10"; s.instances = (int)g_comp.size(); s.n_quick = 30; s.n_thorough = 1000; s.run = c10_component; s.instance_name = rname(g_comp);
+    s.gen = [](int inst) { const Ref rf = g_comp[(size_t)inst]; const VfRelation* R = g_rel[rf.nt][(size_t)rf.idx]; return rc::gen::map(gen_reals(R->args[0].ncomp, rf.nt, -30, 30, kNeg | kZero), [=](const std::vector<LD>& v) { Case c; c.i = {rf.nt, rf.idx}; c.r = v; return c; }); };
+    s.rule = "typed component accessors x(), y(), z(), xx() ... of every vector / tensor quantity: bit-equal to the stored component of that name, typed as the scalar quantity of the same dimensions; non-trivial: components pairwise distinct";
+    subs.push_back(s);
+  }
+  {
+    Sub s; s.name = "c10.direction"; s.property = "C10"; s.instances = (int)g_dirrel.size(); s.n_quick = 300; s.n_thorough = 20000; s.gen = vgen(g_dirrel, true, 1, true); s.run = c10_direction; s.instance_name = rname(g_dirrel);
+    s.rule = "Direction / PlanarDirection built from every vector quantity (constructor and q.Direction() member): length 1 within 4 ulp, each component within 4 ulp of v_i/|v| (parallel, same way), bit-identical after scaling the input by 2^k, "
+             "within 6 ulp after scaling by an arbitrary positive factor, zero vector -> exactly (+0,+0,+0); non-trivial: >= 2 non-zero components";
+    subs.push_back(s);
+  }
+  {
+    Sub s; s.name = "c10.rebuild"; s.property = "C10"; s.instances = (int)g_rebuild.size(); s.n_quick = 200; s.n_thorough = 10000; s.run = c10_rebuild;
+    s.gen = [](int inst) { const Rebuild& P = g_rebuild[(size_t)inst]; const int n = g_rel[P.nt][(size_t)P.mag]->args[0].ncomp; return rc::gen::map(gen_vector(P.nt, n, true), [=](const std::vector<LD>& v) { Case c; c.i = {inst}; c.r = v; return c; }); };
+    s.instance_name = [](int inst) { const Rebuild& P = g_rebuild[(size_t)inst]; return std::string(g_rel[P.nt][(size_t)P.build]->name) + "/" + ntinfo(P.nt).name; };
+    s.rule = "q.Magnitude() x q.Direction() through Q(scalar, direction), scalar * direction and direction * scalar reconstructs q within 4 ulp of |q| per component, for all 17 vector quantity types; non-trivial: >= 2 non-zero components";
+    subs.push_back(s);
+  }
+  {
+    Sub s; s.name = "c11.quantity"; s.property = "C11"; s.instances = (int)g_angle.size(); s.n_quick = 400; s.n_thorough = 20000; s.run = c11_angle; s.instance_name = rname(g_angle);
+    s.gen = [](int inst) { const Ref rf = g_angle[(size_t)inst]; const VfRelation* R = g_rel[rf.nt][(size_t)rf.idx]; const int n = R->args[0].ncomp, nt = rf.nt; const bool dir = R->args[0].kind == 2;
+      return rc::gen::map(rc::gen::tuple(gen_angle_pair(nt, n, dir), irange(-40, 40), irange(-40, 40)), [=](const std::tuple<std::vector<LD>, int, int>& t) { Case c; c.i = {nt, rf.idx, std::get<1>(t), std::get<2>(t)}; c.r = std::get<0>(t); return c; }); };
+    s.rule = "every quantity-level angle relation (Angle(A,B) constructors and a.Angle(b) members for the 17 vector quantity types, Direction and PlanarDirection) x 3 numeric types; pairs b = +-k a (k arbitrary and power of two), "
+             "b = +-k a + 2^-e a_perp (e = 1..60), perpendicular and independent pairs, lengths over the non-overflowing range; oracle: not NaN, in [0, pi], bit-symmetric, bit-invariant under power-of-two rescaling of either argument, "
+             "|theta - atan2(|a x b|, a.b)| <= 6 sqrt(eps) in __float128; non-trivial: |cos theta| > 1 - 2^10 eps";
     subs.push_back(s);
   }
   return engine_main(argc, argv, subs);
